@@ -286,8 +286,10 @@ def op_line(module, scn, op):
         return "DC %d" % op["avail"]
     if a == "Compare":
         return "C %d %d" % (op["s1"], op["s2"])
+    if a == "BuildVal":
+        return "B %d %s" % (op["slot"], " ".join(module.tokens(ty, op["val"])))
     if a == "Check":
-        return "K %d %d" % (op["slot"], op.get("bufsize", 128))
+        return "KA %d" % op["slot"]
     if a == "Free":
         return "F %d" % op["slot"]
     raise Infra("no driver command for op " + a)
@@ -361,8 +363,12 @@ def convert_events(module, scns, events):
         s = byid.get(ev["id"])
         if "bytes" in ev:
             ev["bytes"] = bytes_of(ev["bytes"])
-        if ev["a"] == "Build" and s is not None and 0 < ev["i"] <= len(s["plan"]) and s["plan"][ev["i"] - 1]["a"] == "BuildRep":
-            ev["a"] = "BuildRep"
+        if ev["a"] == "Build" and s is not None and 0 < ev["i"] <= len(s["plan"]) and s["plan"][ev["i"] - 1]["a"] in ("BuildRep", "BuildVal"):
+            ev["a"] = s["plan"][ev["i"] - 1]["a"]
+        if ev["a"] == "Check":
+            # does the message name a type?  "<name>: ..." with <name> a type or member name of the module
+            msg = ev.get("msg", "")
+            ev["named"] = ":" in msg and msg.split(":")[0] in module.all_names()
         if "val" in ev and s is not None:
             try:
                 ev["val"] = module.unproject({"k": "REF", "n": s["ty"]}, ev["val"])
